@@ -362,6 +362,33 @@ pub fn record_geometry(output: &str) {
                     }
                 }
             }
+            // one cell in five (with tool and base) is that of a robot with shape built by the library's constructor with all
+            // distances zero; the distances, the table entries and the mode are then assigned through the public fields
+            // (identity base and tool transforms: the links stand where the plain robot's do)
+            if k % 5 == 1 && k % 4 != 3 && has_tool && has_base && mode_name != "nocheck" {
+                let real = safety_from(&tj, case.def_env_um, case.def_robot_um, mode);
+                let zero = SafetyDistances { to_environment: 0.0, to_robot_default: 0.0, special_distances: HashMap::new(), mode: CheckMode::AllCollsions };
+                let b0 = scene::build(&case.scene, kin_here, &q0, &Isometry3::identity(), zero.clone());
+                let RobotBody { joint_meshes, tool, base, collision_environment, .. } = b0;
+                if let (Some(tool), Some(base)) = (tool, base) {
+                    let built = guarded(|| rs_opw_kinematics::kinematics_with_shape::KinematicsWithShape::with_safety(Parameters::irb2400_10(), Constraints::new([-3.0; 6], [3.0; 6], BY_PREV),
+                        joint_meshes, base.mesh, Isometry3::identity(), tool, Isometry3::identity(), collision_environment, zero));
+                    if let Some(mut kws) = built {
+                        kws.body.safety.to_environment = real.to_environment;
+                        kws.body.safety.to_robot_default = real.to_robot_default;
+                        for (pair, d) in &real.special_distances { kws.body.safety.special_distances.insert(*pair, *d); }
+                        kws.body.safety.mode = mode;
+                        let brute2 = scene::brute(&kws.body, kin_here, &q0);
+                        let mut e = json!({"ev": "collision", "pool": 0, "mode": mode_name, "tool": has_tool, "base": has_base, "nenv": nenv,
+                            "table": tj, "def_env": case.def_env_um, "def_robot": case.def_robot_um, "pairs": pairs_json(&brute2), "class": case.class, "case": k, "api": "collision_details"});
+                        match guarded(|| (kws.collides(&q0), kws.collision_details(&q0))) {
+                            None => { e["outcome"] = json!("panic"); e["report"] = json!([]); e["verdict"] = json!(false); }
+                            Some((c, d)) => { e["outcome"] = json!("ok"); e["report"] = json!(d.iter().map(|p| json!([p.0.min(p.1), p.0.max(p.1)])).collect::<Vec<_>>()); e["verdict"] = json!(c); }
+                        }
+                        out.put(e);
+                    }
+                }
+            }
             // near(): a custom table with the same exemptions but its own distances, on a body that has only the exemptions
             if k % 2 == 0 {
                 // the check mode that counts is the one of the PASSED safety distances; the body's own differs
